@@ -180,23 +180,23 @@ Proof.
   intros c. unfold grpc_failure_code. rewrite !orb_true_iff, !Z.eqb_eq. tauto.
 Qed.
 
-Lemma acceptability_tables :
+Lemma acceptability_tables0 :
   (* gRPC client: only status errors with one of six codes are failures *)
-  (forall d, codes_acceptable d = false <-> d = DStallTimeout \/ exists c, d = DStatus c /\ grpc_failure_code c = true) /\
+  (forall d, codes_acceptable0 d = false <-> d = DStallTimeout \/ exists c, d = DStatus c /\ grpc_failure_code c = true) /\
   (* gRPC server: the same, plus a plain context.DeadlineExceeded and a breaker error from below *)
-  (forall d, server_acceptable d = false <->
+  (forall d, server_acceptable0 d = false <->
      d = DCtxDeadline \/ d = DBreakerUnavailable \/ d = DWrappedDeadline \/ d = DWrappedBreakerUnavailable \/
      d = DStallTimeout \/ exists c, d = DStatus c /\ grpc_failure_code c = true) /\
   (* redis: nil, redis.Nil, context.Canceled (also wrapped) are fine, everything else fails *)
-  (forall d, redis_acceptable d = true <->
+  (forall d, redis_acceptable0 d = true <->
      d = DNil \/ d = DRedisNil \/ d = DWrappedRedisNil \/ d = DCtxCanceled \/ d = DWrappedCanceled) /\
   (* sql: nil, ErrNoRows, ErrTxDone, context.Canceled (also wrapped), acceptableError, what a
      WithAcceptable option accepts; for the Query* methods also a failure to scan the rows *)
-  (forall d, sql_acceptable d = true <->
+  (forall d, sql_acceptable0 d = true <->
      d = DNil \/ d = DSqlNoRows \/ d = DSqlTxDone \/ d = DCtxCanceled \/ d = DWrappedCanceled \/ d = DSqlAcceptable \/
      d = DWrappedSqlNoRows \/ d = DWrappedSqlTxDone \/
      exists i n, d = DSqlCustom i n /\ 1 <= i <= n) /\
-  (forall d, sqlq_acceptable d = true <-> d = DSqlScanFail \/ sql_acceptable d = true) /\
+  (forall d, sqlq_acceptable0 d = true <-> d = DSqlScanFail \/ sql_acceptable0 d = true) /\
   (* REST: Accept iff the status seen by the deferred function is below 500; a handler that
      panics before writing a status leaves 200 there *)
   (forall h, rest_accepts h = true <-> h_code h < 500) /\ rest_accepts (HPanic None) = true.
@@ -220,6 +220,32 @@ Proof.
   - unfold rest_accepts. apply Z.ltb_lt.
   - unfold rest_accepts. apply Z.ltb_lt.
 Qed.
+
+
+(* the tables hold of every error SHAPE through errors.Is semantics: a sentinel wrapped twice, inside
+   errors.Join (either position), inside a multi-%w error or matched by a custom Is method is
+   classified like the bare sentinel ([canon]) *)
+Lemma acceptability_tables :
+  (forall d, codes_acceptable d = false <-> canon d = DStallTimeout \/ exists c, canon d = DStatus c /\ grpc_failure_code c = true) /\
+  (forall d, server_acceptable d = false <->
+     canon d = DCtxDeadline \/ canon d = DBreakerUnavailable \/ canon d = DWrappedDeadline \/ canon d = DWrappedBreakerUnavailable \/
+     canon d = DStallTimeout \/ exists c, canon d = DStatus c /\ grpc_failure_code c = true) /\
+  (forall d, redis_acceptable d = true <->
+     canon d = DNil \/ canon d = DRedisNil \/ canon d = DWrappedRedisNil \/ canon d = DCtxCanceled \/ canon d = DWrappedCanceled) /\
+  (forall d, sql_acceptable d = true <->
+     canon d = DNil \/ canon d = DSqlNoRows \/ canon d = DSqlTxDone \/ canon d = DCtxCanceled \/ canon d = DWrappedCanceled \/
+     canon d = DSqlAcceptable \/ canon d = DWrappedSqlNoRows \/ canon d = DWrappedSqlTxDone \/
+     exists i n, canon d = DSqlCustom i n /\ 1 <= i <= n) /\
+  (forall d, sqlq_acceptable d = true <-> canon d = DSqlScanFail \/ sql_acceptable d = true) /\
+  (forall h, rest_accepts h = true <-> h_code h < 500) /\ rest_accepts (HPanic None) = true.
+Proof.
+  destruct acceptability_tables0 as (H1 & H2 & H3 & H4 & H5 & H6 & H7).
+  repeat split; try (intros; apply H6; assumption); try exact H7.
+  all: intros; first [apply (H1 (canon d)) | apply (H2 (canon d)) | apply (H3 (canon d)) | apply (H4 (canon d)) | apply (H5 (canon d))]; assumption.
+Qed.
+
+Lemma shaped_like_bare : forall k s b, w_acceptable k (DShaped s b) = w_acceptable k (bare b).
+Proof. intros k s b. destruct k as [| | | | | | | | |m u|]; try destruct m; destruct b; reflexivity. Qed.
 
 (* REST: exactly-once *)
 Lemma rest_once : forall rej h,
